@@ -78,6 +78,25 @@ pub fn run<C: RandomizedCiphersuite, L: Lab<C>>(lab: &mut L, p: &Params) {
         }
         let r = rr::aggregate(&sess.package, &fake, &keys.1, &params);
         lab.check(r.is_err(), "the coordinator refuses fewer than t shares under randomization");
+        // "unchanged under randomization": the refusal is the one the plain aggregation gives on the
+        // same inputs — in particular nobody is blamed for a set that is merely too small
+        let r0 = fc::aggregate(&sess.package, &fake, &keys.1);
+        if let (Err(e), Err(e0)) = (&r, &r0) {
+            lab.check(err_name(e) == err_name(e0) && e.culprits() == e0.culprits(), "threshold enforcement is unchanged under randomization: same refusal as the plain aggregation, same (empty) culprit list");
+        }
+        let modes = || [fc::CheaterDetection::Disabled, fc::CheaterDetection::FirstCheater, fc::CheaterDetection::AllCheaters];
+        for (mode, mode0) in modes().into_iter().zip(modes()) {
+            let r = rr::aggregate_custom(&sess.package, &fake, &keys.1, mode, &params);
+            let r0 = fc::aggregate_custom(&sess.package, &fake, &keys.1, mode0);
+            match (&r, &r0) {
+                (Err(e), Err(e0)) => {
+                    lab.check(err_name(e) == err_name(e0) && e.culprits() == e0.culprits(), "threshold enforcement is unchanged under randomization (aggregate_custom, every detection mode)");
+                }
+                _ => {
+                    lab.check(false, "fewer than t shares are refused with and without randomization");
+                }
+            }
+        }
         lab.leave();
         return;
     }
